@@ -139,5 +139,7 @@ StopInit == v = <<>>
 BaseValid == Valid(Base)
 TruncInvalid == \A k \in 0..(Len(Base) - 1) : ~Valid(Trunc(Base, k))
 ASSUME BaseValid /\ TruncInvalid
-ASSUME "OUT" \notin DOMAIN IOEnv \/ ndJsonSerialize(IOEnv.OUT, SetToSeq({Scenario(q, pr) : q \in Variants, pr \in BOOLEAN}))
+\* the dyndep file is neither there nor produced by any statement
+MissingScenario == [Scenario(Base, FALSE) EXCEPT !.srcs = <<"s1", "s2">>, !.ddbad = <<"dd">>]
+ASSUME "OUT" \notin DOMAIN IOEnv \/ ndJsonSerialize(IOEnv.OUT, SetToSeq({Scenario(q, pr) : q \in Variants, pr \in BOOLEAN} \cup {MissingScenario}))
 =============================================================================
